@@ -22,6 +22,7 @@ import (
 	"sort"
 	"strings"
 	"sync"
+	"syscall"
 	"time"
 
 	"verifharness/drive/tl"
@@ -257,6 +258,15 @@ func Main(args []string) error {
 	_ = fs.Parse(args)
 	if *work == "" {
 		return fmt.Errorf("-work required")
+	}
+	// chi's Recoverer prints a stack trace per panicking request to fd 2 (thousands with the known findings):
+	// send fd 2 to a log file while the server runs, give it back before returning
+	if lf, err := os.Create(filepath.Join(*work, "server_stderr.log")); err == nil {
+		if saved, err := syscall.Dup(2); err == nil {
+			if syscall.Dup3(int(lf.Fd()), 2, 0) == nil {
+				defer func() { _ = syscall.Dup3(saved, 2, 0); _ = syscall.Close(saved); _ = lf.Close() }()
+			}
+		}
 	}
 	vod := filepath.Join(*work, "vod")
 	_ = os.RemoveAll(vod)
